@@ -21,7 +21,12 @@
    4. real-time consequences stated on the positions of the events of the
       history: Has never misses a stably present value, two Adds of one value
       one after the other cannot both succeed without a Remove around
-      (C05_after_add, C05_has_after_add, C05_add_after_add; SetRT.v);
+      (C05_after_add, C05_has_after_add, C05_add_after_add) and their duals
+      after a Remove (C05_after_remove, C05_has_after_remove, ...); OVERLAPPING
+      calls: in a window without Remove(v) activity at most one Add(v) invoked
+      and answered in it reports "added", and dually (C05_adds_window,
+      C05_two_adds_overlapping, C05_removes_window, ...); the separating call
+      is a successful one (C05_classic_separated); SetRT.v, Lib/LinHW.v;
    5. the counts of AddSet / RemoveSet / Len add up (SetCounts.v).
    AddSet / RemoveSet are not atomic (a Range plus one atomic Add / Remove per
    element) and are covered by 2 and 5 only; see bin/props/C05.json for what
@@ -266,7 +271,7 @@ Example C05_after_add_example :
       [HInv 1 (CLoad 0 5)] ++ [HRes 2 (RLos 0 false); HInv 2 (CLoadAndDelete 0 7)] ++ [HRes 1 (ROpt (Some 0))] ++
       [HInv 1 rt_add5; HRes 1 (RLos 0 true); HRes 2 (ROpt (Some 0))] /\
   no_ev 0 ([] : list hev) /\ no_ev 1 [HRes 2 (RLos 0 false); HInv 2 (CLoadAndDelete 0 7)] /\
-  (forall t c, pend_call [HInv 2 rt_add7] t = Some c -> ~ is_remove 5 c) /\
+  (forall t c, pend_call ([HInv 2 rt_add7] : list hev) t = Some c -> ~ is_remove 5 c) /\
   (forall t c, In (HInv t c) ([] ++ [] ++ [HRes 2 (RLos 0 false); HInv 2 (CLoadAndDelete 0 7)]) -> ~ is_remove 5 c) /\
   (* Add 5 after Add 5 *)
   h = [HInv 2 rt_add7] ++ [HInv 0 rt_add5] ++ [] ++ [HRes 0 (RLos 0 false)] ++
@@ -283,6 +288,169 @@ Proof.
   intros t c [E|[E|[E|[E|[]]]]]; try discriminate; injection E as <- <-; cbn; auto; discriminate.
 Qed.
 
+(* ---- the duals: after a Remove(v) has returned ---- *)
+Theorem C05_after_remove : forall v (h0 hA h2 hB h4 : list hev) t1 c1 r1 t2 c2 r2,
+  linearizable set_spec ∅ (h0 ++ [HInv t1 c1] ++ hA ++ [HRes t1 r1] ++ h2 ++ [HInv t2 c2] ++ hB ++ [HRes t2 r2] ++ h4) ->
+  is_remove v c1 -> no_ev t1 hA -> no_ev t2 hB -> ~ is_add v c2 ->
+  (forall t c, pend_call h0 t = Some c -> ~ is_add v c) ->
+  (forall t c, In (HInv t c) (hA ++ h2 ++ hB) -> ~ is_add v c) ->
+  exists sm, ~ v ∈ sm /\ r2 = snd (set_spec sm c2).
+Proof. exact set_after_remove. Qed.
+Print Assumptions C05_after_remove.
+
+(* Has never reports a value that has been removed and not added again *)
+Theorem C05_has_after_remove : forall z progs sched v (h0 hA h2 hB h4 : list hev) t1 j1 r1 t2 j2 r2,
+  Forall (Forall set_frag) progs ->
+  map_hist (run_schedule (init_config_z [z] progs) sched) =
+    h0 ++ [HInv t1 (CLoadAndDelete j1 v)] ++ hA ++ [HRes t1 r1] ++ h2 ++ [HInv t2 (CLoad j2 v)] ++ hB ++ [HRes t2 r2] ++ h4 ->
+  no_ev t1 hA -> no_ev t2 hB ->
+  (forall t c, pend_call h0 t = Some c -> ~ is_add v c) ->
+  (forall t c, In (HInv t c) (hA ++ h2 ++ hB) -> ~ is_add v c) ->
+  r2 = ROpt None.
+Proof. exact has_after_remove. Qed.
+Print Assumptions C05_has_after_remove.
+
+Theorem C05_remove_after_remove : forall z progs sched v (h0 hA h2 hB h4 : list hev) t1 j1 r1 t2 j2 r2,
+  Forall (Forall set_frag) progs ->
+  map_hist (run_schedule (init_config_z [z] progs) sched) =
+    h0 ++ [HInv t1 (CLoadAndDelete j1 v)] ++ hA ++ [HRes t1 r1] ++ h2 ++ [HInv t2 (CLoadAndDelete j2 v)] ++ hB ++ [HRes t2 r2] ++ h4 ->
+  no_ev t1 hA -> no_ev t2 hB ->
+  (forall t c, pend_call h0 t = Some c -> ~ is_add v c) ->
+  (forall t c, In (HInv t c) (hA ++ h2 ++ hB) -> ~ is_add v c) ->
+  r2 = ROpt None.
+Proof. exact remove_after_remove. Qed.
+Print Assumptions C05_remove_after_remove.
+
+(* ---- OVERLAPPING Adds / Removes: at most one succeeds per window ---- *)
+(* The history is cut as h0 ++ W ++ h4. [cnt_added v (rev W)] = the number of
+   responses in the window W that report "added" and answer an Add(v) invoked
+   within W ([succ_set]: Add reports loaded = false, Remove reports a value).
+   If no Remove(v) is pending at the start of W and none is invoked in W, at
+   most one of them reports "added" - however the Adds overlap. Read the other
+   way: if two Add(v) calls both report "added", take W = from the earlier
+   invocation to the later response: some Remove(v) is pending at the start of W
+   or invoked in W, i.e. its interval is neither entirely before the first
+   Add's invocation nor entirely after the second Add's response. In particular
+   in a history without any Remove(v) (h0 = [], W = the whole history) at most
+   one Add(v) ever reports "added". Dually for Removes. (That the separating
+   Remove is a SUCCESSFUL one is C05_classic_separated below.) *)
+Theorem C05_adds_window : forall z progs sched v (h0 W h4 : list hev),
+  Forall (Forall set_frag) progs ->
+  map_hist (run_schedule (init_config_z [z] progs) sched) = h0 ++ W ++ h4 ->
+  (forall t c, pend_call h0 t = Some c -> ~ is_remove v c) ->
+  (forall t c, In (HInv t c) W -> ~ is_remove v c) ->
+  cnt_added v (rev W) <= 1.
+Proof. exact run_adds_window. Qed.
+Print Assumptions C05_adds_window.
+
+Theorem C05_removes_window : forall z progs sched v (h0 W h4 : list hev),
+  Forall (Forall set_frag) progs ->
+  map_hist (run_schedule (init_config_z [z] progs) sched) = h0 ++ W ++ h4 ->
+  (forall t c, pend_call h0 t = Some c -> ~ is_add v c) ->
+  (forall t c, In (HInv t c) W -> ~ is_add v c) ->
+  cnt_removed v (rev W) <= 1.
+Proof. exact run_removes_window. Qed.
+Print Assumptions C05_removes_window.
+
+(* spelled out for two calls A and B of the window, A answered first:
+     W = z0 ++ [HRes tA rA] ++ y ++ [HRes tB rB] ++ x,
+   tA's pending call after z0 is cA, tB's pending call after z0 ++ [HRes tA rA] ++ y
+   is cB: both are invoked within W, B before, during or after A (nested,
+   overlapping or consecutive). Two Add(v) never both report "added" ... *)
+Theorem C05_two_adds_overlapping : forall z progs sched v (h0 z0 y x h4 : list hev) tA cA rA tB cB rB,
+  Forall (Forall set_frag) progs ->
+  map_hist (run_schedule (init_config_z [z] progs) sched) = h0 ++ (z0 ++ [HRes tA rA] ++ y ++ [HRes tB rB] ++ x) ++ h4 ->
+  pend_call z0 tA = Some cA -> is_add v cA -> succ_set rA = true ->
+  pend_call (z0 ++ [HRes tA rA] ++ y) tB = Some cB -> is_add v cB -> succ_set rB = true ->
+  (forall t c, pend_call h0 t = Some c -> ~ is_remove v c) ->
+  (forall t c, In (HInv t c) (z0 ++ [HRes tA rA] ++ y ++ [HRes tB rB] ++ x) -> ~ is_remove v c) ->
+  False.
+Proof. exact run_two_adds. Qed.
+Print Assumptions C05_two_adds_overlapping.
+
+(* ... and two Remove(v) never both report "removed", unless an Add(v) is around *)
+Theorem C05_two_removes_overlapping : forall z progs sched v (h0 z0 y x h4 : list hev) tA cA rA tB cB rB,
+  Forall (Forall set_frag) progs ->
+  map_hist (run_schedule (init_config_z [z] progs) sched) = h0 ++ (z0 ++ [HRes tA rA] ++ y ++ [HRes tB rB] ++ x) ++ h4 ->
+  pend_call z0 tA = Some cA -> is_remove v cA -> succ_set rA = true ->
+  pend_call (z0 ++ [HRes tA rA] ++ y) tB = Some cB -> is_remove v cB -> succ_set rB = true ->
+  (forall t c, pend_call h0 t = Some c -> ~ is_add v c) ->
+  (forall t c, In (HInv t c) (z0 ++ [HRes tA rA] ++ y ++ [HRes tB rB] ++ x) -> ~ is_add v c) ->
+  False.
+Proof. exact run_two_removes. Qed.
+Print Assumptions C05_two_removes_overlapping.
+
+(* The classic sequential history S of C05_set_linearizable_classic with the
+   separation property: between two entries Add(v) of S of which the later one
+   reports "added" there is an entry Remove(v) of S that reports "removed"
+   (and dually). S consists of exactly the calls of the history with their
+   reported results (clause (b)), and clause (c) places that Remove in real
+   time: every cut of the history is matched by a cut of S, so the Remove can
+   neither have returned before the earlier Add was invoked nor be invoked
+   after the later Add returned (C04_classic_real_time spells out positions). *)
+Theorem C05_classic_separated : forall z progs sched,
+  Forall (Forall set_frag) progs ->
+  let h := map_hist (run_schedule (init_config_z [z] progs) sched) in
+  exists (s : gset Z) (S : list (nat * call * res)),
+    spec_run set_spec ∅ (calls S) = (s, results S) /\
+    (forall t, exists l1 l2, invs t h = calls (sel t S) ++ l1 /\ results (sel t S) = ress t h ++ l2 /\
+                             length l1 + length l2 <= 1) /\
+    (forall h1 h2, h = h1 ++ h2 -> exists S1 S2, S = S1 ++ S2 /\
+       forall t, length (ress t h1) <= length (sel t S1) <= length (invs t h1)) /\
+    (forall v Sa x Sm y Sb, S = Sa ++ x :: Sm ++ y :: Sb ->
+       is_add v (snd (fst x)) -> is_add v (snd (fst y)) -> succ_set (snd y) = true ->
+       exists z, In z Sm /\ is_remove v (snd (fst z)) /\ succ_set (snd z) = true) /\
+    (forall v Sa x Sm y Sb, S = Sa ++ x :: Sm ++ y :: Sb ->
+       is_remove v (snd (fst x)) -> is_remove v (snd (fst y)) -> succ_set (snd y) = true ->
+       exists z, In z Sm /\ is_add v (snd (fst z)) /\ succ_set (snd z) = true).
+Proof. exact set_classic_separated. Qed.
+Print Assumptions C05_classic_separated.
+
+(* Non-vacuity. (1) Two OVERLAPPING Adds of 5 (G1's Add is invoked while G0's
+   is in flight and answered after it): exactly one reports "added"; the window
+   is the part of the history up to G1's response, no Remove anywhere. (2) G0 =
+   Add 5; Remove 5, G1 = Remove 5; Has 5 with the two Removes overlapping:
+   exactly one reports "removed" (window = everything after G0's Add returned:
+   no Add pending, none invoked), and G1's Has, invoked after G1's Remove
+   returned, reports false. *)
+Definition ov_progs1 : list (list call) := [[CLoadOrStore 0 5 0 PNone]; [CLoadOrStore 0 5 0 PNone; CLoad 0 5]]%Z.
+Definition ov_sched1 := c05_sch ([0;0;1;1;0;0;0;0;0] ++ repeat 1 20 ++ repeat 0 5).
+Definition ov_progs2 : list (list call) := [[CLoadOrStore 0 5 0 PNone; CLoadAndDelete 0 5]; [CLoadAndDelete 0 5; CLoad 0 5]]%Z.
+Definition ov_sched2 := c05_sch (repeat 0 7 ++ [1;1;0;0;1;1;0;0] ++ repeat 1 20 ++ repeat 0 20 ++ repeat 1 10).
+
+Example C05_overlapping_example :
+  (let W1 := [HInv 0 rt_add5; HInv 1 rt_add5; HRes 0 (RLos 0 false); HRes 1 (RLos 0 true)] in
+   let W2 := [HInv 0 (CLoadAndDelete 0 5); HInv 1 (CLoadAndDelete 0 5); HRes 1 (ROpt (Some 0));
+              HInv 1 (CLoad 0 5); HRes 1 (ROpt None); HRes 0 (ROpt None)] in
+   Forall (Forall set_frag) ov_progs1 /\ Forall (Forall set_frag) ov_progs2 /\
+   map_hist (run_schedule (init_config_z [true] ov_progs1) ov_sched1) =
+     [] ++ W1 ++ [HInv 1 (CLoad 0 5); HRes 1 (ROpt (Some 0))] /\
+   (forall t c, pend_call ([] : list hev) t = Some c -> ~ is_remove 5 c) /\
+   (forall t c, In (HInv t c) W1 -> ~ is_remove 5 c) /\
+   cnt_added 5 (rev W1) = 1%nat /\
+   map_hist (run_schedule (init_config_z [true] ov_progs2) ov_sched2) =
+     [HInv 0 rt_add5; HRes 0 (RLos 0 false)] ++ W2 ++ [] /\
+   (forall t c, pend_call [HInv 0 rt_add5; HRes 0 (RLos 0 false)] t = Some c -> ~ is_add 5 c) /\
+   (forall t c, In (HInv t c) W2 -> ~ is_add 5 c) /\
+   cnt_removed 5 (rev W2) = 1%nat /\
+   (* the cut for C05_has_after_remove: G1's Remove, then G1's Has *)
+   [HInv 0 rt_add5; HRes 0 (RLos 0 false)] ++ W2 ++ [] =
+     [HInv 0 rt_add5; HRes 0 (RLos 0 false); HInv 0 (CLoadAndDelete 0 5)] ++ [HInv 1 (CLoadAndDelete 0 5)] ++ [] ++
+     [HRes 1 (ROpt (Some 0))] ++ [] ++ [HInv 1 (CLoad 0 5)] ++ [] ++ [HRes 1 (ROpt None)] ++ [HRes 0 (ROpt None)] /\
+   (forall t c, pend_call [HInv 0 rt_add5; HRes 0 (RLos 0 false); HInv 0 (CLoadAndDelete 0 5)] t = Some c -> ~ is_add 5 c))%Z.
+Proof.
+  cbv zeta.
+  split; [repeat constructor|]. split; [repeat constructor|]. split; [vm_compute; reflexivity|].
+  split; [intros t c; unfold pend_call; cbn; discriminate|].
+  split; [intros t c [E|[E|[E|[E|[]]]]]; try discriminate; injection E as <- <-; cbn; auto|].
+  split; [vm_compute; reflexivity|]. split; [vm_compute; reflexivity|].
+  split.
+  { intros t c. unfold pend_call. cbn [rev app last_ev ev_thread]. destruct (Nat.eq_dec 0 t); discriminate. }
+  split; [intros t c [E|[E|[E|[E|[E|[E|[]]]]]]]; try discriminate; injection E as <- <-; cbn; auto|].
+  split; [vm_compute; reflexivity|]. split; [reflexivity|].
+  intros t c. unfold pend_call. cbn [rev app last_ev ev_thread]. destruct (Nat.eq_dec 0 t); [intros [= <-]; cbn; auto|discriminate].
+Qed.
+
 (* ------------------------------------------------------------------ *)
 (* The counts of AddSet / RemoveSet / Len add up                       *)
 (* ------------------------------------------------------------------ *)
@@ -294,7 +462,10 @@ Qed.
    the receiver per element, in a child frame of the Range frame. *)
 From Typ Require Import SyncMap.RangeConc SyncMap.SetCounts.
 
-(* (a) thread-local accounting: when the nested call of an AddSet / RemoveSet
+(* (a) thread-local accounting, a statement about ONE STEP (the run-level
+   reading "the count returned = the number of nested calls that reported
+   success" follows because a new Range frame starts with count 0 and no other
+   step changes it; it is not stated as a separate theorem): when the nested call of an AddSet / RemoveSet
    returns r, the Range's running count (0 when the call starts) grows by
    [inc_of cb r] = 1 if r reports success (Add: loaded = false, Remove: loaded =
    true) and 0 otherwise; nothing else changes it; if the Range completes in that
@@ -374,3 +545,53 @@ Example C05_counts_example :
   map (fun i => abs_lookup (i_st i) 5%Z) (c_insts c2) = [Some 0%Z; Some 0%Z] /\
   finished c2 = true /\ Forall (Forall sfrag) cnt_progs.
 Proof. vm_compute. repeat split; repeat constructor. Qed.
+
+(* Non-vacuity of C05_len_constant: one goroutine runs Add 5; Add 7; Len. Its
+   third call (i = 2) is Len, the contents are {5, 7} in every configuration of
+   the Len call ([stable_map_check]: by computation), and Len returns 2. *)
+Definition len_progs : list (list call) := [[CLoadOrStore 0 5 0 PNone; CLoadOrStore 0 7 0 PNone; CRange 0 (CbStop None)]]%Z.
+Definition len_sched : list (nat * Z) := concat (repeat [(0, 5%Z); (0, 7%Z)] 30).
+Example C05_len_example :
+  let c := run_schedule (init_config_z [true] len_progs) len_sched in
+  Forall (Forall rfrag) len_progs /\
+  (exists p, nth_error len_progs 0 = Some p /\ nth_error p 2 = Some (CRange 0 (CbStop None))) /\
+  map t_results (c_threads c) = [[RLos 0 false; RLos 0 false; RRange [(7, 0); (5, 0)] 2]]%Z /\
+  (forall x, In x (steps_from (init_config_z [true] len_progs) len_sched) -> in_call_at x 0 2 ->
+     forall k, abs_lookup (st0 x.1) k = ({[5 := 0; 7 := 0]} : gmap Z Z) !! k)%Z /\
+  size ({[5 := 0; 7 := 0]} : gmap Z Z)%Z = 2.
+Proof.
+  cbv zeta. split; [repeat constructor|]. split; [eexists; split; reflexivity|]. split; [vm_compute; reflexivity|].
+  split; [apply stable_map_check; vm_compute; reflexivity|vm_compute; reflexivity].
+Qed.
+
+(* Non-vacuity of C05_nested_return_counted: the configuration c1 of
+   C05_counts_example - G0 is inside set0.AddSet(set1), its nested Add 5 (child
+   frame, on top of the Range frame p) has stored and is about to return
+   "added": all hypotheses hold, the step returns RLos 0 false, inc_of = 1. *)
+Example C05_nested_example :
+  let c1 := run_schedule (init_config_z [true; true] cnt_progs) (cnt_sch (repeat 0 6 ++ repeat 0 5 ++ [0;0] ++ [1;1;1] ++ repeat 0 5 ++ [1])) in
+  exists c' th child p rest r i i',
+    step c1 0 5%Z = Some c' /\ c_panicked c1 = false /\
+    nth_error (c_threads c1) 0 = Some th /\ t_stack th = child :: p :: rest /\
+    is_post_label (f_pc child) = false /\ f_call child = CLoadOrStore 0 5 0 PNone /\ f_call p = CRange 1 (CbAdd 0) /\
+    nth_error (c_insts c1) (call_inst (f_call child)) = Some i /\ step_frame 0 i child 5%Z = Some (Ok (i', Return r)) /\
+    r = RLos 0 false /\ inc_of (cb_of (f_call p)) r = 1%Z.
+Proof.
+  cbv zeta.
+  match eval vm_compute in (run_schedule (init_config_z [true; true] cnt_progs) (cnt_sch (repeat 0 6 ++ repeat 0 5 ++ [0;0] ++ [1;1;1] ++ repeat 0 5 ++ [1]))) with
+  | ?c1 =>
+    match eval vm_compute in (step c1 0 5%Z, nth_error (c_threads c1) 0) with
+    | (Some ?c', Some ?th) =>
+      match eval vm_compute in (t_stack th) with
+      | ?child :: ?p :: ?rest =>
+        match eval vm_compute in (nth_error (c_insts c1) (call_inst (f_call child))) with
+        | Some ?i =>
+          match eval vm_compute in (step_frame 0 i child 5%Z) with
+          | Some (Ok (?i', Return ?r)) => exists c', th, child, p, rest, r, i, i'
+          end
+        end
+      end
+    end
+  end.
+  repeat split; vm_compute; reflexivity.
+Qed.
